@@ -382,7 +382,24 @@ def r5_pack_size(cx, rule="R5"):
     want_none = ref.REF["sizes"]["CheckInfo.none.block"] - crc
     want_b3 = ref.REF["sizes"]["CheckInfo.blake3.block"] - crc
     vals = sorted(v for v in tab.values())
-    cx.ob(rule, "%s/CheckKind.block_size" % rule, vals == sorted([want_none, want_b3]) and tab.get(0, tab.get("otherwise")) == want_none, f,
+    okb = vals == sorted([want_none, want_b3]) and tab.get(0, tab.get("otherwise")) == want_none
+    if not okb:
+        # the same sizes computed in another shape (tag size + payload size, a helper per kind): evaluated by constant
+        # propagation under each kind, with the type's own helpers inlined
+        db = F.deep_body(f, only=r"common::check::|bases::block::")
+        conv = [i for i, t in db.calls(r"Into<.*ASize>>::into$", r"ASize as .*From<usize>>::from$", r"ASize::new$") if 0 in db.whole_copies({t["dest"]["l"]}) | {t["dest"]["l"]} or True]
+        en = F.enum("common::check::CheckKind")
+        got = {}
+        for v in en["variants"]:
+            for cb in conv:
+                crc32 = next(x["discr"] for x in F.enum("bases::block::BlockCheck")["variants"] if x["name"] == "Crc32")
+                db.explore(assume_discr={r"check::CheckKind$": v["discr"], r"block::BlockCheck$": crc32}, watch={cb: 0})
+                xs = db.watched.get(cb, set())
+                if len(xs) == 1 and None not in xs:
+                    got[v["name"]] = next(iter(xs))
+        tab = {"by-kind": got}
+        okb = got.get("None") == crc + want_none and got.get("Blake3") == crc + want_b3
+    cx.ob(rule, "%s/CheckKind.block_size" % rule, okb, f,
           "CheckKind::block_size = CRC + 1 (None) / CRC + 33 (Blake3): payload constants per arm %s" % tab)
 
 
@@ -490,6 +507,19 @@ def r7_plain_store_size_matches_data(cx):
     gM = [i for i, l in enumerate(gb.locals) if l.get("name") and re.sub(r"\s", "", l.get("ty", "")) == "std::option::Option<usize>"]
     gst = [i for i, blk in enumerate(gb.blocks) for st in blk["s"] if st["k"] in ("assign", "setdiscr") and st["lhs"]["l"] in gM and i in gb.reach_after(gN) and gN in gb.reach_after(i)]
     okw = bool(gst) and all(not (gb.reachable(i, avoid={W}) & {gN}) or gb.dominates(W, i) for i in gst)
+    if not gst:
+        # the same skip written as a filter on the keys: `keys.filter(|k| last.replace(**k) != Some(**k))` -- the key is
+        # remembered (replace) for every key seen and the key passes iff it differs from the one remembered before it
+        flt = gb.calls(r"Iterator>::filter::<")
+        for c in F.closures_of(g):
+            if "blocks" not in c:
+                continue
+            cb = F.body(c)
+            rp = cb.calls(r"Option::<usize>::replace$")
+            ne = cb.calls(r"cmp::PartialEq.*>::(ne|eq)$")
+            if len(rp) == 1 and len(ne) == 1 and flt and ("call", rp[0][0]) in (cb.origins(ne[0][1]["args"][0]) | cb.origins(ne[0][1]["args"][1])) \
+                    and 0 in cb.whole_copies({ne[0][1]["dest"]["l"]}) | {ne[0][1]["dest"]["l"]} and callee_str(ne[0][1]).endswith("::ne"):
+                okw = True
     cx.ob("R7", "R7/PlainValueStore.write_data/one-copy-per-remembered-key", okw, g,
           "the key remembered for the skip test is updated exactly in the iterations that write the value")
 
